@@ -32,13 +32,15 @@ vars == <<inp, stage, lnprior, noiseFrom, miFrom, forwardCalls, result, round, r
 Inputs == [sup : BOOLEAN, scat : BOOLEAN, cons : {"none", "ok", "violated"},
            mnoise : {"none", "scalar", "prior"}, dnoise : {"absent", "none", "scalar"},
            uniform : BOOLEAN, mi : {"model", "data", "both", "neither"},
-           pixels : BOOLEAN, kind : {"alpha_fixed", "alpha_prior", "exact"}, layered : BOOLEAN]
+           pixels : BOOLEAN, kind : {"alpha_fixed", "alpha_prior", "exact"}, layered : BOOLEAN,
+           edge : BOOLEAN]      \* the index value sits exactly on the upper bound of its prior (still inside)
 
 Init == /\ inp \in Inputs
         /\ (inp.cons # "none" => inp.scat)       \* the constraint is only evaluated on a valid scatterer
         /\ (inp.layered => inp.cons = "none")    \* layered spheres appear alone
+        /\ (inp.edge => (inp.sup /\ inp.cons = "none" /\ ~inp.layered /\ inp.mi = "model" /\ ~inp.pixels))
         /\ (Rounds = 2 => (inp.cons = "none" /\ inp.mnoise = "scalar" /\ inp.mi = "model" /\ inp.uniform
-                           /\ inp.dnoise = "absent" /\ ~inp.pixels))
+                           /\ inp.dnoise = "absent" /\ ~inp.pixels /\ ~inp.edge))
         /\ round = 1 /\ reuse = "first"
         /\ stage = "start" /\ lnprior = "unknown" /\ noiseFrom = "unknown" /\ miFrom = "unknown"
         /\ forwardCalls = 0 /\ result = "pending"
